@@ -381,6 +381,15 @@ class Session:
                                     'A': tokens.Keyword})
         self._mark_reconf()
 
+    def op_lex_add_stock(self, op):
+        """Add one of the library's own keyword dictionaries (the module-
+        level objects), as the documented way of building a custom
+        configuration does after clear()."""
+        from sqlparse import keywords
+        self._lexer().add_keywords(getattr(keywords, op.get(
+            'which', 'KEYWORDS')))
+        self._mark_reconf()
+
     def op_lex_default_init(self, op):
         self._lexer().default_initialization()
         self.default_config = True
